@@ -31,7 +31,8 @@ SafeInt Converter<SafeInt>::getValue(ptrdiff_t val) {
 
 template<>
 SafeInt Converter<SafeInt>::negate(SafeInt const & val) {
-    return SafeInt(-(val.value() + 1));
+    // -val - 1 without leaving the range: val + 1 overflows for the largest value, -val for the smallest
+    return SafeInt(val.value() >= 0 ? -val.value() - 1 : -(val.value() + 1));
 }
 
 template<>
